@@ -386,13 +386,51 @@ func AppendNumber(_ *RuntimeContext, b []byte, n json.Number) ([]byte, error) {
 	if len(n) == 0 {
 		return append(b, '0'), nil
 	}
-	for i := 0; i < len(n); i++ {
-		if !floatTable[n[i]] {
-			return nil, fmt.Errorf("json: invalid number literal %q", n)
-		}
+	if !isValidNumber(string(n)) {
+		return nil, fmt.Errorf("json: invalid number literal %q", n)
 	}
 	b = append(b, n...)
 	return b, nil
+}
+
+// isValidNumber reports whether s is a number of the JSON grammar (RFC 8259 section 6).
+func isValidNumber(s string) bool {
+	i := 0
+	if i < len(s) && s[i] == '-' {
+		i++
+	}
+	switch {
+	case i < len(s) && s[i] == '0':
+		i++
+	case i < len(s) && '1' <= s[i] && s[i] <= '9':
+		for i < len(s) && '0' <= s[i] && s[i] <= '9' {
+			i++
+		}
+	default:
+		return false
+	}
+	if i < len(s) && s[i] == '.' {
+		i++
+		if i == len(s) || s[i] < '0' || '9' < s[i] {
+			return false
+		}
+		for i < len(s) && '0' <= s[i] && s[i] <= '9' {
+			i++
+		}
+	}
+	if i < len(s) && (s[i] == 'e' || s[i] == 'E') {
+		i++
+		if i < len(s) && (s[i] == '+' || s[i] == '-') {
+			i++
+		}
+		if i == len(s) || s[i] < '0' || '9' < s[i] {
+			return false
+		}
+		for i < len(s) && '0' <= s[i] && s[i] <= '9' {
+			i++
+		}
+	}
+	return i == len(s)
 }
 
 func AppendMarshalJSON(ctx *RuntimeContext, code *Opcode, b []byte, v interface{}) ([]byte, error) {
